@@ -1,9 +1,13 @@
 package c19
 
 import (
+	"bufio"
+	"encoding/json"
 	"fmt"
+	"io"
 	"math/rand"
 	"os"
+	"os/exec"
 	"strings"
 	"testing"
 	"time"
@@ -59,8 +63,8 @@ var alignOps = []string{
 	"bootstrap", "clone", "split", "randsubalign",
 }
 
-var ntOps = []string{"phase", "seq-translate"}   // nucleotide containers
-var ntAlignOps = []string{"stops", "distmatrix"} // nucleotide alignments
+var ntOps = []string{"phase", "seq-translate"}    // nucleotide containers
+var ntAlignOps = []string{"stops", "distmatrix"}  // nucleotide alignments
 var aaAlignOps = []string{"mldist", "codonalign"} // protein alignments
 
 var dnaModels = []string{"jc", "k2p", "pdist", "rawdist", "f81", "tn93", "f84"}
@@ -168,10 +172,11 @@ func ntFor(a cAli, seed int64) align.SeqBag {
 }
 
 type queryResult struct {
-	ok       bool   // the operation returned without error
-	panicked string // a panic of the operation (not a matter of this property; the snapshot is still compared)
-	other    string // a modification of another operand
-	excluded string // the operation was not executed: known crash signature
+	ok        bool   // the operation returned without error
+	panicked  string // a panic of the operation (not a matter of this property; the snapshot is still compared)
+	other     string // a modification of another operand
+	excluded  string // the operation was not executed: known crash signature
+	childDiff string // modification of the receiver observed in the child process (Phase)
 }
 
 const keyPhaseNil = "phase-no-positive-alignment"
@@ -464,9 +469,16 @@ func runQuery(test string, c qCase, o qop, sb align.SeqBag) (res queryResult) {
 		}
 		// a sequence without any positively scoring alignment makes a worker goroutine of Phase
 		// dereference nil (the process dies): screened out, see FINDINGS.md
-		if !phaseSafe(c.Ali, o.I%2 == 0, ref, o.B1, o.B2) {
+		if os.Getenv("C19_NO_PRECHECK") == "" && !phaseSafe(c.Ali, o.I%2 == 0, ref, o.B1, o.B2) { // the variable is a development aid: lets the child die
 			res.ok = false
 			res.excluded = keyPhaseNil
+			return
+		}
+		if os.Getenv("C19_PHASE_CHILD") == "" {
+			// executed in a child process: a panic inside a worker goroutine of the phaser cannot be
+			// recovered and would end the whole run; the child reports the snapshot comparison
+			res = phaseInChild(c, o)
+			other = nil
 			return
 		}
 		guard(func() {
@@ -586,6 +598,116 @@ func runQuery(test string, c qCase, o qop, sb align.SeqBag) (res queryResult) {
 	return
 }
 
+// ---- Phase runs in a child process ---------------------------------------------------------------
+//
+// A panic inside a worker goroutine of the phaser cannot be recovered and would end the whole run.
+// The test binary is therefore started once more as a server (TestPhaseChild): it reads one case
+// per line, executes the Phase operation, compares the snapshots and answers with one line. When
+// the server dies the operation is recorded as "panicked (not judged here)" and a new server is
+// started for the next one.
+
+type phaseServer struct {
+	cmd *exec.Cmd
+	in  io.WriteCloser
+	out *bufio.Reader
+}
+
+var server *phaseServer
+
+func startServer() *phaseServer {
+	cmd := exec.Command(os.Args[0], "-test.run", "^TestPhaseChild$", "-test.timeout", "0")
+	env := []string{"C19_PHASE_CHILD=server"}
+	for _, kv := range os.Environ() {
+		if !strings.HasPrefix(kv, "VERIF_FRAG=") && !strings.HasPrefix(kv, "VERIF_SIDE") && !strings.HasPrefix(kv, "VERIF_REPLAY=") {
+			env = append(env, kv)
+		}
+	}
+	cmd.Env = env
+	in, err := cmd.StdinPipe()
+	if err != nil {
+		panic("harness: " + err.Error())
+	}
+	out, err := cmd.StdoutPipe()
+	if err != nil {
+		panic("harness: " + err.Error())
+	}
+	cmd.Stderr = nil
+	if err := cmd.Start(); err != nil {
+		panic("harness: cannot start the Phase server: " + err.Error())
+	}
+	return &phaseServer{cmd: cmd, in: in, out: bufio.NewReaderSize(out, 1<<20)}
+}
+
+func (s *phaseServer) stop() {
+	s.in.Close()
+	s.cmd.Process.Kill()
+	s.cmd.Wait()
+}
+
+type childAnswer struct {
+	OK    bool
+	Diff  string
+	Other string
+}
+
+func phaseInChild(c qCase, o qop) (res queryResult) {
+	one := qCase{Ali: c.Ali, Ops: []qop{o}}
+	b, _ := json.Marshal(one)
+	if server == nil {
+		server = startServer()
+	}
+	if _, err := server.in.Write(append(b, '\n')); err != nil {
+		server.stop()
+		server = nil
+		res.panicked = "the child process running Phase died (write)"
+		return
+	}
+	for {
+		line, err := server.out.ReadString('\n')
+		if strings.HasPrefix(line, "C19CHILD ") {
+			var r childAnswer
+			if json.Unmarshal([]byte(strings.TrimSpace(strings.TrimPrefix(line, "C19CHILD "))), &r) == nil {
+				res.ok = r.OK
+				res.childDiff = r.Diff
+				res.other = r.Other
+				return
+			}
+		}
+		if err != nil {
+			server.stop()
+			server = nil
+			res.panicked = "the child process running Phase died"
+			return
+		}
+	}
+}
+
+// TestPhaseChild is the body of the server process
+func TestPhaseChild(t *testing.T) {
+	if os.Getenv("C19_PHASE_CHILD") == "" {
+		t.Skip("only run as a child of TestQueries")
+	}
+	rd := bufio.NewReaderSize(os.Stdin, 1<<20)
+	for {
+		line, err := rd.ReadString('\n')
+		if len(strings.TrimSpace(line)) > 0 {
+			var c qCase
+			if json.Unmarshal([]byte(line), &c) != nil || len(c.Ops) != 1 {
+				fmt.Printf("\nC19BAD\n")
+			} else {
+				sb := buildContainer(c.Ali)
+				before := snapshot(sb)
+				res := runQuery("TestQueries", c, c.Ops[0], sb)
+				out, _ := json.Marshal(childAnswer{res.ok && res.excluded == "", before.diff(snapshot(sb)), res.other})
+				fmt.Printf("\nC19CHILD %s\n", out)
+			}
+		}
+		if err != nil {
+			return
+		}
+	}
+}
+
 func checkQueries(test string) func(c qCase) (pbt.Outcome, error) {
 	return func(c qCase) (o pbt.Outcome, err error) {
 		sb := buildContainer(c.Ali)
@@ -600,7 +722,11 @@ func checkQueries(test string) func(c qCase) (pbt.Outcome, error) {
 		for k, op := range c.Ops {
 			res := runQuery(test, c, op, sb)
 			after := snapshot(sb)
-			if d := before.diff(after); d != "" {
+			d := before.diff(after)
+			if d == "" {
+				d = res.childDiff
+			}
+			if d != "" {
 				return o, fmt.Errorf("operation %d (%s) modified the %s it was called on: %s", k, op.Op, kindOf(c.Ali), d)
 			}
 			if res.other != "" {
@@ -613,9 +739,9 @@ func checkQueries(test string) func(c qCase) (pbt.Outcome, error) {
 				okAll = false
 			case res.panicked != "":
 				o.Class("%s: panicked (not judged here)", op.Op)
-			if os.Getenv("C19_SHOW_PANICS") != "" {
-				fmt.Println("PANIC", op.Op, res.panicked)
-			}
+				if os.Getenv("C19_SHOW_PANICS") != "" {
+					fmt.Println("PANIC", op.Op, res.panicked)
+				}
 				okAll = false
 			case res.ok:
 				o.Class("%s: ok", op.Op)
@@ -637,6 +763,14 @@ func kindOf(a cAli) string {
 	return "alignment"
 }
 
-func TestQueries(t *testing.T) { pbt.Run(t, genQCase, checkQueries("TestQueries")) }
+func TestQueries(t *testing.T) {
+	defer func() {
+		if server != nil {
+			server.stop()
+			server = nil
+		}
+	}()
+	pbt.Run(t, genQCase, checkQueries("TestQueries"))
+}
 
 var _ = gen.Show
